@@ -86,6 +86,16 @@ class TCls(TV):
         self.ci = ci
 
 
+class TClo(TV):
+    """a function defined inside another one: its body runs in the environment it was defined in"""
+
+    def __init__(self, node, fr):
+        self.node, self.fr = node, fr
+
+    def __repr__(self):
+        return f"<closure {self.node.name}>"
+
+
 class TLam(TV):
     """a lambda closure: evaluated in a copy of the defining environment when called"""
 
@@ -220,7 +230,17 @@ class TaintInterp:
         if isinstance(t, ast.Name):
             fr.env[t.id] = v
         elif isinstance(t, (ast.Tuple, ast.List)):
-            if isinstance(v, (TTup, TLst)) and len(v.items) == len(t.elts) and getattr(v, "extra", None) is None:
+            stars = [i for i, x in enumerate(t.elts) if isinstance(x, ast.Starred)]
+            if len(stars) == 1 and isinstance(v, (TTup, TLst)) and getattr(v, "extra", None) is None and len(v.items) >= len(t.elts) - 1:
+                # a, *rest, z = (x0, ..., xn): the starred name takes the items in between, as a list
+                k = stars[0]
+                after = len(t.elts) - k - 1
+                for tt, vv in zip(t.elts[:k], v.items[:k]):
+                    self.assign(tt, vv, fr)
+                self.assign(t.elts[k].value, TLst(list(v.items[k:len(v.items) - after])), fr)
+                for tt, vv in zip(t.elts[k + 1:], v.items[len(v.items) - after:] if after else []):
+                    self.assign(tt, vv, fr)
+            elif isinstance(v, (TTup, TLst)) and len(v.items) == len(t.elts) and getattr(v, "extra", None) is None:
                 for tt, vv in zip(t.elts, v.items):
                     self.assign(tt, vv, fr)
             else:
@@ -311,7 +331,7 @@ class TaintInterp:
         elif isinstance(s, (ast.Continue, ast.Break)):
             fr.skip = "continue" if isinstance(s, ast.Continue) else "break"
         elif isinstance(s, (ast.FunctionDef, ast.AsyncFunctionDef)):
-            fr.env[s.name] = T()
+            fr.env[s.name] = TClo(s, fr)
         elif isinstance(s, ast.Try):
             e0 = copy_env(fr.env)
             self.block(s.body, fr)
@@ -517,7 +537,7 @@ class TaintInterp:
             if t is False:
                 return self.ev(e.orelse, fr)
             return add_labels(join(self.ev(e.body, fr), self.ev(e.orelse, fr)), labels(c))
-        if isinstance(e, (ast.ListComp, ast.GeneratorExp, ast.SetComp)) and len(e.generators) == 1 and not e.generators[0].ifs:
+        if isinstance(e, (ast.ListComp, ast.GeneratorExp, ast.SetComp)) and len(e.generators) == 1:
             it0 = self.ev(e.generators[0].iter, fr)
             seq0 = None
             if isinstance(it0, TTup) or (isinstance(it0, TLst) and it0.extra is None):
@@ -527,7 +547,19 @@ class TaintInterp:
                 out = []
                 for v in seq0:
                     self.assign(e.generators[0].target, v, fr)
-                    out.append(self.ev(e.elt, fr))
+                    # a filter that is not decided keeps the item (as the unrolled loop with an undecided `if` around its append does):
+                    # the positions of the items stay aligned with those of the iterated sequence
+                    cl, drop = EMPTY, False
+                    for c in e.generators[0].ifs:
+                        cv = self.ev(c, fr)
+                        if truth(cv) is False:
+                            drop = True
+                            break
+                        cl |= noval(labels(cv))
+                    if drop:
+                        continue
+                    item = self.ev(e.elt, fr)
+                    out.append(add_labels(item, cl) if cl else item)
                 fr.env = saved
                 return TLst(out) if not isinstance(e, ast.GeneratorExp) else TTup(out)
         if isinstance(e, (ast.ListComp, ast.GeneratorExp, ast.SetComp)):
@@ -628,6 +660,36 @@ class TaintInterp:
     def _call(self, f, args, kw, node, fr):
         if isinstance(f, TFn):
             return self.inline(f, args, kw, node)
+        if isinstance(f, TClo) and self.depth < self.max_depth:
+            # the captured variables are shared with the defining function (in-place effects on them are seen there)
+            a_ = f.node.args
+            env = dict(f.fr.env)
+            names_ = [x.arg for x in a_.posonlyargs + a_.args]
+            for p_, d_ in zip(names_[len(names_) - len(a_.defaults):], a_.defaults):
+                env[p_] = self.ev(d_, f.fr)
+            for x_, d_ in zip(a_.kwonlyargs, a_.kw_defaults):
+                if d_ is not None:
+                    env[x_.arg] = self.ev(d_, f.fr)
+            for p_, v_ in zip(names_, args):
+                env[p_] = v_
+            if a_.vararg:
+                env[a_.vararg.arg] = TTup(list(args[len(names_):]))
+            extra_ = {}
+            for k_, v_ in kw.items():
+                if k_ in names_ or k_ in [x.arg for x in a_.kwonlyargs]:
+                    env[k_] = v_
+                else:
+                    extra_[k_] = v_
+            if a_.kwarg:
+                env[a_.kwarg.arg] = TDct(extra_)
+            fr2 = Frame(f.fr.mod, env, f.fr.qual, f.fr.cls)
+            fr2.ctl = f.fr.ctl
+            self.depth += 1
+            try:
+                self.block(f.node.body, fr2)
+            finally:
+                self.depth -= 1
+            return fr2.ret if fr2.ret is not None else TC(None)
         if isinstance(f, TLam):
             env = copy_env(f.fr.env)
             for p_, v_ in zip([a.arg for a in f.node.args.args], args):
